@@ -29,6 +29,9 @@ CLAIMED['C29'] = ("after a reload of one namespace, a deletion or a clone of the
 CLAIMED['C34'] = ("inductive step of MySQLSequence.NextSeq from an arbitrary cached block with an arbitrary block-fetch reply (well-formed with symbolic digits, one field, non-numeric, zero/negative increment, missing row, empty result, execute/pool error): a value is issued only from a granted block and lies inside it, a failed fetch leaves no phantom block; plus every interleaving of k<=6 requests of 2 proxies over one table model with a fault on any fetch: no value twice, increasing per proxy",
     "the sequence table is a model (current += increment; reply 'current,increment'); replies are 2-digit current / 1-2 digit increment in the step harness; the mutex is exercised single-threaded (the proxy serialises NextSeq under one lock); the value limit (maxLimit) is off")
 
+CLAIMED['C08'] = ("mycat_mod (every int64, counts 1..16), mycat_long (every int64, 6 layouts), mycat_string (keys of <=3 symbolic code points of any plane, all hashSlice forms with bounds -3..3) and the mycat_murmur hash function (every int32 seed, <=3 code points) equal independent transcriptions of Mycat's Java algorithms (BigInteger abs/mod, UTF-16 String.length/charAt, Guava murmur3_32 hashUnencodedChars)",
+    "the Mycat side is a transcription written for this check (validated on the vectors of shard_mycat_test.go by the repo's own tests), not Mycat itself; the murmur consistent-hash ring lookup (treemap ceiling over the virtual buckets) and mycat_padding_mod are not covered")
+
 NA_REASON = "check not built yet (work in progress; see DESIGN.md section 3 for the planned harness)"
 NA = {}
 
